@@ -87,7 +87,27 @@ func simple(name, doc string, opts ...simpleOpt) {
 func init() {
 	simple("strings.ReplaceAll", "strings.ReplaceAll: total; result is some string (its content is not modelled)")
 	simple("encoding/hex.DecodeString", "hex.DecodeString: total; returns bytes no longer than the input, or an error")
-	simple("path.Join", "path.Join: total; result is some string")
+	ext("path.Join", "path.Join(a, b): a deterministic function of its two arguments (uninterpreted pathjoin)",
+		func(x *Exec, st *State, fr *Frame, cc *ssa.CallCommon, args []Val, instr ssa.Instruction) []Outcome {
+			x.w.Decl("(declare-fun g_pathjoin (" + SSeqI + " " + SSeqI + ") " + SSeqI + ")")
+			if sv, ok := args[0].(SliceV); ok {
+				if tv, ok := st.cells[sv.Cell].(TV); ok && x.cellLen(st, sv.Cell) == "2" && sv.Lo == "0" {
+					r := app("g_pathjoin", sIdx(tv.S, tv.E, "0"), sIdx(tv.S, tv.E, "1"))
+					st.assume(app("g_isbytes", r))
+					st.assume(tAnd(tCmp("<=", "0", sLen(SSeqI, r)), tCmp("<=", sLen(SSeqI, r), maxLenLit)))
+					return one(st, TV{SSeqI, r})
+				}
+				if arr, ok := st.cells[sv.Cell].(ArrV); ok && len(arr.Elems) == 2 {
+					a := x.toTV(st, arr.Elems[0], types.Typ[types.String]).E
+					b := x.toTV(st, arr.Elems[1], types.Typ[types.String]).E
+					r := app("g_pathjoin", a, b)
+					st.assume(app("g_isbytes", r))
+					st.assume(tAnd(tCmp("<=", "0", sLen(SSeqI, r)), tCmp("<=", sLen(SSeqI, r), maxLenLit)))
+					return one(st, TV{SSeqI, r})
+				}
+			}
+			return one(st, TV{SSeqI, x.freshBytes(st, "path")})
+		})
 	simple("bytes.Trim", "bytes.Trim: total; result is a sub-slice of the input")
 	simple("os.IsNotExist", "os.IsNotExist: total predicate")
 	simple("os.ReadFile", "os.ReadFile: returns the file content or an error; never panics", optErrOrVal)
